@@ -103,32 +103,42 @@ def shl1 (n : Nat) : Option Nat := if n < 64 then some (2 ^ n) else none
 /-- `(expected_pn & !pn_mask) | truncated_pn` on `u64` -/
 def candidateBits (expected mask t : Nat) : Nat := (expected &&& (u64Max - mask)) ||| t
 
-/-- `decode_packet_number(largest_pn, truncated_pn)` (mod.rs). `none` = a `u64` overflow /
-    underflow panic in one of the unchecked operations. The four flags:
+/-- second half of `decode_packet_number`: the four flags
       a = expected_pn.checked_sub(pn_hwin).filter(|v| candidate_pn <= *v).is_some()
       b = (1u64 << 62).checked_sub(pn_win).filter(|v| candidate_pn < *v).is_some()
       c = expected_pn.checked_add(pn_hwin).filter(|v| candidate_pn > *v).is_some()
       d = candidate_pn >= pn_win
-    and the final `VarInt::new(candidate_pn).unwrap_or(VarInt::MAX)` clamp. -/
+    `ab = a && b`, `cd = !ab && c && d`, `if ab { candidate_pn += pn_win }`,
+    `if cd { candidate_pn -= pn_win }` (unchecked `u64` arithmetic: none = overflow panic) and the
+    final `VarInt::new(candidate_pn).unwrap_or(VarInt::MAX)` clamp. -/
+def adjustCandidate (mx expected win candidate : Nat) : Option Nat :=
+  let hwin := win / 2
+  let a := decide (hwin ≤ expected ∧ candidate ≤ expected - hwin)
+  let b := decide (win ≤ 2 ^ 62 ∧ candidate < 2 ^ 62 - win)
+  let c := decide (expected + hwin ≤ u64Max ∧ candidate > expected + hwin)
+  let d := decide (candidate ≥ win)
+  let ab := a && b
+  let cd := !ab && c && d
+  match (if ab then checkedAdd candidate win else some candidate) with
+  | none => none
+  | some c1 =>
+    match (if cd then checkedSub c1 win else some c1) with
+    | none => none
+    | some c2 => some (if c2 ≤ mx then c2 else mx)
+
+/-- `decode_packet_number(largest_pn, truncated_pn)` (mod.rs). `none` = a `u64` overflow /
+    underflow panic in one of the unchecked operations:
+      let pn_nbits = truncated_pn.bitsize();
+      let expected_pn = largest_pn.as_u64() + 1;
+      let pn_win = 1 << pn_nbits;  let pn_hwin = pn_win / 2;  let pn_mask = pn_win - 1;
+      let mut candidate_pn = (expected_pn & !pn_mask) | truncated_pn.into_u64(); … -/
 def decodePacketNumberWith (mx largest : Nat) (t : Truncated) : Option Nat :=
   let nbits := bitsize t.len
   match checkedAdd largest 1, shl1 nbits with
   | some expected, some win =>
-    let hwin := win / 2
     let mask := win - 1
     let candidate := candidateBits expected mask t.value
-    let a := decide (hwin ≤ expected ∧ candidate ≤ expected - hwin)
-    let b := decide (win ≤ 2 ^ 62 ∧ candidate < 2 ^ 62 - win)
-    let c := decide (expected + hwin ≤ u64Max ∧ candidate > expected + hwin)
-    let d := decide (candidate ≥ win)
-    let ab := a && b
-    let cd := !ab && c && d
-    match (if ab then checkedAdd candidate win else some candidate) with
-    | none => none
-    | some c1 =>
-      match (if cd then checkedSub c1 win else some c1) with
-      | none => none
-      | some c2 => some (if c2 ≤ mx then c2 else mx)
+    adjustCandidate mx expected win candidate
   | _, _ => none
 
 def decodePacketNumber (largest : Nat) (t : Truncated) : Option Nat :=
